@@ -20,6 +20,7 @@ if r.returncode != 0:
     r3 = sh(f"git -C /repo apply --3way {d}/patch.diff")
     res["apply"] = "3way" if r3.returncode == 0 else "FAILED: " + r.stderr[-300:]
     if r3.returncode != 0:
+        sh("git -C /repo reset -q --hard HEAD")
         print(json.dumps(res)); sys.exit(0)
     sh("git -C /repo reset -q")
 else:
